@@ -12,6 +12,19 @@ package raft
 // vfile(dir, ext, a, b) is the name valueFile() builds; vf1/vf2 are its inverses
 // (decimal formatting is injective: T-std).
 //
+// Property dependencies: a property's check also decides the obligations labelled with the
+// properties it rests on (transitively). E.g. election safety (C01) presupposes one durable vote
+// per term (C05) and that only voters campaign (C11).
+//@ depends C01 C05 C11
+//@ depends C02 C01 C04 C06
+//@ depends C03 C02 C09
+//@ depends C06 C14
+//@ depends C08 C11
+//@ depends C09 C13 C12
+//@ depends C10 C05 C14 C13
+//@ depends C16 C01 C17
+//@ depends C17 C01
+
 //@ ghost var fs map[uint64]bool
 //@ ghost func vfile(string, string, uint64, uint64) uint64
 //@ ghost func vf1(uint64) uint64
